@@ -74,11 +74,69 @@ class Env:
         return tuple(bool(r.match(x)) for x in self.univ[dom])
 
 
+def _kids(d):
+    if "children" in d:
+        return list(d["children"])
+    if "child" in d:
+        return [d["child"]]
+    return []
+
+
+def node_label(d1, d2):
+    """<type>:<fields of this node that differ> -- from the descriptors only"""
+    t = d1["t"] if d1["t"] == d2["t"] else f"{d1['t']}~{d2['t']}"
+    if d1["t"] == d2["t"] == "atom":
+        from . import c02
+
+        fa, fb = c02._fields_from_spec("atom", [d1["text"], d1["nv"]]), c02._fields_from_spec("atom", [d2["text"], d2["nv"]])
+        keys = RP.G.diff_fields(fa, fb)
+    else:
+        keys = sorted(k for k in set(d1) | set(d2) if k not in ("children", "child", "sp", "t") and d1.get(k) != d2.get(k))
+    if len(_kids(d1)) != len(_kids(d2)):
+        keys.append("arity")
+    return f"{t}:{'+'.join(keys) or 'same'}"
+
+
+def localise(env, law, d1, d2):
+    """bucket label = deepest pair of corresponding nodes that still exhibits the violated law (root cause), so that
+    a wrapper around a defective child is not blamed"""
+    if d1["t"] == d2["t"]:
+        k1, k2 = _kids(d1), _kids(d2)
+        if len(k1) == len(k2):
+            for c1, c2 in zip(k1, k2):
+                if _exhibits(env, law, c1, c2):
+                    return localise(env, law, c1, c2)
+    return node_label(d1, d2)
+
+
+def _exhibits(env, law, c1, c2):
+    try:
+        a, b = env.B.build(c1), env.B.build(c2, True)
+        if not (a == b or b == a):
+            return False
+        if law == "hash":
+            return hash(a) != hash(b)
+        dom = RP.domain(c1)
+        return dom == RP.domain(c2) and env.vec(a, dom) != env.vec(b, dom)
+    except Exception:  # noqa: BLE001 -- only used to choose a label
+        return False
+
+
+def diffpath(d1, d2):
+    """label of the deepest node where the two descriptors start to differ"""
+    if d1["t"] == d2["t"]:
+        k1, k2 = _kids(d1), _kids(d2)
+        if len(k1) == len(k2) and node_label(d1, d2).endswith(":same"):
+            diff = [(a, b) for a, b in zip(k1, k2) if a != b]
+            if len(diff) == 1:
+                return diffpath(*diff[0])
+    return node_label(d1, d2)
+
+
 def check_pair(ctx, env, kind, d1, d2, nocache2):
     s1, s2 = RP.strip(d1), RP.strip(d2)
-    case = {"d1": s1, "d2": s2, "nocache2": bool(nocache2), "kind": kind}
+    case = {"d1": s1, "d2": s2, "nocache2": bool(nocache2)}
     dom1, dom2 = RP.domain(d1), RP.domain(d2)
-    label = kind if "+" not in kind else "multi"
     st_ = {"eq": False, "same": False}
 
     def body():
@@ -93,7 +151,7 @@ def check_pair(ctx, env, kind, d1, d2, nocache2):
         v2 = env.vec(r2, dom2)
         if v2 != v2_alone:
             i = next(i for i, (x, y) in enumerate(zip(v2, v2_alone)) if x != y)
-            ctx.violation(f"instcache:{label}", case,
+            ctx.violation(f"instcache:{diffpath(s1, s2)}", case,
                           f"{r2} matches universe[{i}]={_show(env.univ[dom2][i])} -> {v2[i]} while r1={r1} is alive, but {v2_alone[i]} when built alone")
         eq_before = bool(r1 == r2) or bool(r2 == r1)
         h1, h2 = hash(r1), hash(r2)
@@ -105,14 +163,14 @@ def check_pair(ctx, env, kind, d1, d2, nocache2):
         if not eq:
             return
         if h1 != h2:
-            ctx.violation(f"hash:{label}", case, f"{r1!r} == {r2!r} but hashes differ")
+            ctx.violation(f"hash:{localise(env, 'hash', s1, s2)}", case, f"{r1!r} == {r2!r} but hashes differ")
         if dom1 != dom2:
             ctx.count("equal_across_domains")
             return
         v1 = env.vec(r1, dom1)
         if v1 != v2:
             i = next(i for i, (x, y) in enumerate(zip(v1, v2)) if x != y)
-            ctx.violation(f"match:{label}", case,
+            ctx.violation(f"match:{localise(env, 'match', s1, s2)}", case,
                           f"{r1} == {r2} but match({_show(env.univ[dom1][i])}) is {v1[i]} vs {v2[i]}")
         if dom1 == "pkg":
             cr = env.caching_repo(env.FakeRepo(pkgs=env.pkgs), iter)
@@ -120,11 +178,11 @@ def check_pair(ctx, env, kind, d1, d2, nocache2):
             got = [str(p) for p in cr.match(r2)]
             want = [str(p) for p, m in zip(env.pkgs, v2_alone) if m]
             if got != want:
-                ctx.violation(f"cache:caching_repo:{label}", case,
+                ctx.violation(f"cache:caching_repo:{diffpath(s1, s2)}", case,
                               f"caching_repo.match(r2) after match(r1) returned {got[:4]}.. ({len(got)}), r2 alone matches {want[:4]}.. ({len(want)})")
 
     res = core.guarded(ctx, case, body)
-    cl = [f"t:{s1['t']}", f"kind:{label}"]
+    cl = [f"t:{s1['t']}", f"kind:{kind if '+' not in kind else 'multi'}"]
     if st_["eq"]:
         cl.append("equal")
         cl.append("equal-distinct-objects" if not st_["same"] else "equal-same-object")
@@ -297,7 +355,7 @@ def replay(ctx, case):
             n1 = _parse_ru_text(case["ru1"])
         check_ru(ctx, env, case.get("kind", "replay"), n1, n2)
         return
-    check_pair(ctx, Env(), case.get("kind", "replay"), case["d1"], case["d2"], case.get("nocache2", False))
+    check_pair(ctx, Env(), "replay", case["d1"], case["d2"], case.get("nocache2", False))
 
 
 def _parse_ru_text(s):
